@@ -99,9 +99,11 @@ class Prop:
         safe = ''.join(c if c.isalnum() or c in '._-' else '_' for c in name)[:150]
         return os.path.join('replays', self.pid, safe + '.json')
 
-    def _known_match(self, layer, name, inp):
+    def _known_match(self, layer, name, inp, path=None):
         for kf in self.known:
             if kf.get('property') != self.pid or kf.get('layer', layer) != layer:
+                continue
+            if kf.get('path') is not None and path is not None and kf['path'] != path:
                 continue
             ob = kf.get('obligation', '')
             if not (name == ob or (ob.endswith('*') and name.startswith(ob[:-1]))):
@@ -178,7 +180,7 @@ class Prop:
         base = dict(function=function, path=path, solver_result=res['result'], backend=res.get('backend'),
                     solver_model=str(m)[:2000] if m is not None else None, layer='P')
         if found:
-            kf = self._known_match('P', name, found.get('input'))
+            kf = self._known_match('P', name, found.get('input'), path)
             rec['refuted_by'] = jsonable(found)
             if kf:
                 rec['known_finding'] = True
@@ -186,7 +188,7 @@ class Prop:
                 return False
             self.violation(name + '.' + path, dict(base, failing_input=found))
             return False
-        kf = self._known_match('P', name, None)
+        kf = self._known_match('P', name, None, path)
         if kf and not kf.get('signature'):
             rec['known_finding'] = True
             self._emit_known(kf)
